@@ -143,6 +143,17 @@ def gen_cases(ctx):
                 for o in (False, True):
                     yield {"kind": "grid", "op": op, "ref": ref, "est": est, "align": a, "correct_scale": c,
                            "align_origin": o, "n": -1, "storage": "se3", "corpus": "F5-shapes"}
+    # ---- structured sizes for n_to_align: {3, 4, 2^k-1, 2^k, 2^k+1 (k=2..11), 1000, 2000} on noisy data,
+    # N = n, n+1 or n+7 poses, modes alternating (thorough: rigid and similarity for every size)
+    grid = sorted(set([3, 4, 1000, 2000] + [2 ** k + d for k in range(2, 12) for d in (-1, 0, 1)]))
+    for idx, n in enumerate(grid):
+        modes = ["se3", "sim3"] if (ctx.thorough or n <= 65) else [["se3", "sim3"][(idx + ctx.seed) % 2]]
+        for mode in modes:
+            N = n + r.choice([0, 1, 7])
+            noise = r.choice([0.05, 0.2])
+            ref, est = gen_pair(r, N, "generic", noise, r.choice([1.0, logu(r, 0.1, 10)]))
+            yield {"kind": "sized", "op": "align", "mode": mode, "ref": ref, "est": est, "storage": r.choice(["se3", "quat"]),
+                   "noise": noise, "ratio": 1.0, "n": n if N > n or r.random() < 0.5 else -1}
     ops = ["align", "align", "align", "origin", "ape", "rpe"]
     for k in range(budget):
         op = ops[k % len(ops)]
